@@ -7,6 +7,10 @@ import (
 
 var traceExplore = os.Getenv("VERIF_SCHED_TRACE") != ""
 
+// Stop, when set by a harness, is polled before every execution; once it
+// reports true the exploration ends with Complete=false (soft time budget).
+var Stop func() bool
+
 // Result summarises an exploration.
 type Result struct {
 	Executions       int
@@ -43,6 +47,10 @@ func ExploreSharded(bound int, maxSteps int, budget int, own func() bool, mk fun
 		f := stack[len(stack)-1]
 		stack = stack[:len(stack)-1]
 		if budget > 0 && res.Executions >= budget {
+			res.Complete = false
+			return res
+		}
+		if Stop != nil && res.Executions > 0 && Stop() {
 			res.Complete = false
 			return res
 		}
